@@ -21,6 +21,17 @@ def clock_summaries(ctx: Ctx, q: str, fallback: dict | None = None):
     chain = T.dispatch_chain(fi.node)
     out = {}
     bodies = {m: body for m, _, body in chain if m is not None}
+    # an earlier branch selected by `is not prefix X` is taken for every other prefix: the branches after it are dead for them
+    negs = []
+    for m, test, _ in chain:
+        if isinstance(m, str) and m.startswith("not:"):
+            negs.append((m[4:], test))
+        elif m is not None:
+            sh = [t_ for x, t_ in negs if x != m]
+            ctx.check(not sh, "CHAIN", f"{q}: the branch of {m} is not shadowed by an earlier branch", function=q,
+                      construct=f"the {m} branch of the prefix dispatch is unreachable",
+                      message=f"an earlier branch `{short(sh[0], 60) if sh else ''}` is taken for every prefix but one: {m} parts never reach their own branch",
+                      file=fi.file, node=test)
     roles = None
     if "REST" in bodies and "BAR" in bodies:
         from ..linear import Sym
